@@ -91,8 +91,8 @@ def has_cfg_test_attribute(mod_node: Node) -> bool:
         True if module has #[cfg(test)] attribute
     """
     prev_sibling = mod_node.prev_sibling
-    while prev_sibling is not None and prev_sibling.type == "attribute_item":
-        if "cfg(test)" in _get_node_text(prev_sibling):
+    while prev_sibling is not None and prev_sibling.type in _ATTRIBUTE_RUN_TYPES:
+        if prev_sibling.type == "attribute_item" and "cfg(test)" in _get_node_text(prev_sibling):
             return True
         prev_sibling = prev_sibling.prev_sibling
     return False
